@@ -322,6 +322,19 @@ func NoPanic(f func()) (panicked bool, msg string) {
 	return
 }
 
+// Checkpoint records what is about to be executed.  If the test process dies (an unrecovered panic in
+// a goroutine started by restic), the driver turns the last checkpoint into a violation and replays it.
+func (r *Run) Checkpoint(caseKey string, detail any) {
+	if r.out == "" {
+		return
+	}
+	buf, err := json.Marshal(map[string]any{"case": caseKey, "detail": detail})
+	if err != nil {
+		return
+	}
+	_ = os.WriteFile(r.out+".cur", buf, 0o600)
+}
+
 // Finish writes the shard result.  Call it with defer right after Start.
 func (r *Run) Finish() {
 	r.mu.Lock()
